@@ -9,6 +9,7 @@ import CookModel.Analysis.RefCheck
 import CookModel.Analysis.MetaValidator
 import CookModel.Lemmas.LexLaws
 import CookModel.Lemmas.MetaFrontDiags
+import CookModel.Lemmas.RefCheckValidator
 /-
   C18  Parsing is deterministic, stateless across calls and thread-safe.
 
@@ -654,5 +655,170 @@ theorem C18_ref_check_consulted_after_failed_parse (i : Instance) (h : List ReqO
   simp [Instance.serveO, Instance.runReqsO_env, OptsO.reply]
 
 -- ===== end w12c18opts =====
+
+-- ===== w13c18both =====
+/-! ### ONE `parse_with_options` call with BOTH callbacks (wave 13)
+
+    `OptsO` (wave 12) has a reference check OR a validator.  `RV.parseRecipeRV` (Analysis/RefCheckValidator.lean, tied
+    by the operation `recipe_rv` to mode (g) of harness/src/props/c18.rs) threads both through one fold.  `OptsB` is the
+    pair of options of one call; `ReqB` the request with it.  `OptsO`, `ReqO` and their theorems are unchanged;
+    `OptsB.ofOptsO` / `ReqB.ofReqO` embed them and the replies agree (`C18_options_both_specialises`). -/
+
+/-- the options of one `parse_with_options` call, callbacks that depend on their arguments only: each of
+    `recipe_ref_check` and `metadata_validator` present or absent -/
+structure OptsB where
+  chk : Option (Str → FM.CheckRes) := none
+  val : Option (SM.Y → SM.Y → FM.Verdict) := none
+
+/-- the validator as the model functions take it: the call-number-indexed family that ignores the number -/
+def OptsB.valN (o : OptsB) : Option (Nat → SM.Y → SM.Y → FM.Verdict) := o.val.map (fun f _ => f)
+
+/-- what `parse_with_options(input, opts)` returns on a parser with environment `env` -/
+def OptsB.reply (env : Env) (o : OptsB) (x : Str) : AnalysisResult α := RV.parseRecipeRV env o.chk o.valN x
+
+/-- the one-callback options of wave 12 as options with the other callback absent -/
+def OptsB.ofOptsO : OptsO → OptsB
+  | .refCheck chk => ⟨chk, none⟩
+  | .validator val => ⟨none, val⟩
+
+/-- **The call with both options specialises to the one-callback models.**  `RV.parseRecipeRV` with the validator
+    absent is `RC.parseRecipeR`, with the reference check absent it is `MV.parseRecipeV`, with both absent it is
+    `parse`; hence a one-callback request of wave 12 gets the same reply when read as a both-options request. -/
+theorem C18_options_both_specialises (env : Env) (x : Str) :
+    (∀ chk, RV.parseRecipeRV (α := α) env chk none x = RC.parseRecipeR env chk x) ∧
+    (∀ val, RV.parseRecipeRV (α := α) env none val x = MV.parseRecipeV env val x) ∧
+    RV.parseRecipeRV (α := α) env none none x = parseRecipe env x ∧
+    (∀ o : OptsO, (OptsB.ofOptsO o).reply (α := α) env x = o.reply env x) := by
+  refine ⟨fun chk => RV.rv_recipe_no_val env chk x, fun val => RV.rv_recipe_no_chk env val x,
+    RV.rv_recipe_none env x, ?_⟩
+  intro o
+  cases o with
+  | refCheck chk => exact RV.rv_recipe_no_val env chk x
+  | validator val => exact RV.rv_recipe_no_chk env _ x
+
+/-- a request to a parser instance: `parse`, `parse_metadata` or `parse_with_options` with any pair of options -/
+inductive ReqB where
+  | parse (input : Str)
+  | parseMeta (input : Str)
+  | parseOpts (o : OptsB) (input : Str)
+
+/-- the requests of wave 12 are requests of this kind -/
+def ReqB.ofReqO : ReqO → ReqB
+  | .parse x => .parse x
+  | .parseMeta x => .parseMeta x
+  | .parseOpts o x => .parseOpts (.ofOptsO o) x
+
+def Instance.serveB (i : Instance) : ReqB → Instance × AnalysisResult α
+  | .parse x => ({ i with tableBuilt := true }, parseRecipe i.env x)
+  | .parseMeta x => ({ i with tableBuilt := true }, parseMetadata i.env x)
+  | .parseOpts o x => ({ i with tableBuilt := true }, o.reply i.env x)
+
+/-- on the requests of wave 12 `serveB` is `serveO` -/
+theorem Instance.serveB_ofReqO (i : Instance) (r : ReqO) : i.serveB (α := α) (.ofReqO r) = i.serveO (α := α) r := by
+  cases r with
+  | parse x => rfl
+  | parseMeta x => rfl
+  | parseOpts o x =>
+    simp only [ReqB.ofReqO, Instance.serveB, Instance.serveO]
+    rw [(C18_options_both_specialises (α := α) i.env x).2.2.2 o]
+
+def Instance.runReqsB (i : Instance) : List ReqB → Instance
+  | [] => i
+  | r :: rs => Instance.runReqsB ((i.serveB (α := α) r).1) rs
+
+theorem Instance.runReqsB_env (i : Instance) (h : List ReqB) : (Instance.runReqsB (α := α) i h).env = i.env := by
+  induction h generalizing i with
+  | nil => rfl
+  | cons r rs ih => cases r <;> simp [Instance.runReqsB, ih, Instance.serveB]
+
+/-- **`parse_with_options` with both callbacks in the history.**  After ANY history of requests (`parse`,
+    `parse_metadata`, `parse_with_options` with a reference check, a validator, both or neither — argument-only
+    callbacks), the reply to a request is the reply of a fresh instance; and the reply to a `parse_with_options` with
+    the reference check `chk` AND the validator `val` is `RV.parseRecipeRV env chk val x`, computed with the two
+    callbacks of THIS request — neither of them replaced by, or lost to, the options (or "no options") of an earlier
+    call. -/
+theorem C18_history_independent_options_both (i : Instance) (h : List ReqB) (r : ReqB) :
+    ((Instance.runReqsB (α := α) i h).serveB (α := α) r).2 = (({ i with tableBuilt := false } : Instance).serveB (α := α) r).2 ∧
+    (∀ chk val x, r = .parseOpts ⟨chk, val⟩ x →
+      ((Instance.runReqsB (α := α) i h).serveB (α := α) r).2 =
+        RV.parseRecipeRV i.env chk (val.map (fun f _ => f)) x) := by
+  refine ⟨?_, ?_⟩
+  · cases r <;> simp [Instance.serveB, Instance.runReqsB_env]
+  · rintro chk val x rfl; simp [Instance.serveB, Instance.runReqsB_env, OptsB.reply, OptsB.valN]
+
+/-- everything a caller sees of one call (front matter interpreted); for a `parse_with_options` the validator
+    `process_frontmatter` consults is the one of the options of that call -/
+def fullReplyB (env : Env) (fe : FM.Env α) : ReqB → FullReply α
+  | .parse x => fullReplyOf fe (parseRecipe env x)
+  | .parseMeta x => fullReplyOf fe (parseMetadata env x)
+  | .parseOpts o x => fullReplyOf { fe with validator := o.valN } (o.reply env x)
+
+/-- one call of any kind on parser number `k` of a process -/
+def Process.serveB (p : Process α) (k : Nat) (r : ReqB) : Process α × Option (FullReply α) :=
+  ({ p with tableBuilt := true }, p.parsers[k]?.map (fun e => fullReplyB e.1 e.2 r))
+
+def Process.runB (p : Process α) : List (Nat × ReqB) → Process α
+  | [] => p
+  | c :: cs => Process.runB ((p.serveB c.1 c.2).1) cs
+
+theorem Process.runB_parsers (p : Process α) (h : List (Nat × ReqB)) : (p.runB h).parsers = p.parsers := by
+  induction h generalizing p with
+  | nil => rfl
+  | cons c cs ih => simp [Process.runB, ih, Process.serveB]
+
+/-- **Parser instances of one process do not influence each other, calls with both callbacks included**: after any
+    history of calls of all kinds on any of the parsers, the full reply of parser `k` (result, report with the
+    front-matter diagnostics, metadata map, servings) is that of a fresh process that has only that parser. -/
+theorem C18_instances_independent_options_both (p : Process α) (h : List (Nat × ReqB)) (k : Nat) (r : ReqB)
+    (e : Env × FM.Env α) (hk : p.parsers[k]? = some e) :
+    ((p.runB h).serveB k r).2 = ((⟨[e], false⟩ : Process α).serveB 0 r).2 ∧
+    ((p.runB h).serveB k r).2 = some (fullReplyB e.1 e.2 r) := by
+  simp [Process.serveB, Process.runB_parsers, hk]
+
+/-! non-vacuity on model output: after the history of wave 12 extended by a call with only a validator, the document
+    `>> z: 1` / `add @@pesto{}` under BOTH a check rejecting `pesto` and a validator warning on the key `z`. -/
+private def C18_w13Val : SM.Y → SM.Y → FM.Verdict := fun k _ =>
+  match k with
+  | .str s => if s = "z".toList then ⟨.warning, true, true⟩ else {}
+  | _ => {}
+private def C18_w13Doc : Str := ">> z: 1\nadd @@pesto{}\n".toList
+private def C18_w13Hist : List ReqB :=
+  C18_w12Hist.map .ofReqO ++ [.parseOpts ⟨none, some C18_w13Val⟩ "x".toList, .parseOpts ⟨some C18_w12Chk, none⟩ "y".toList]
+private theorem C18_w13_fmDoc : parseFrontmatter toyCharSpec C18_w13Doc = none := by decide
+private theorem C18_w13_lexDoc : lex toyCharSpec C18_w13Doc = lexFuel toyCharSpec 22 0 C18_w13Doc :=
+  lexFrom_eq_fuel _ _ _ _ (by decide)
+/-- after that history, the call with BOTH callbacks reports the validator's warning on `z` (key span, value span), the
+    check's error on `@@pesto{}` (span of the component) and the old-style-metadata warning, in report order; the same
+    document with one callback absent loses exactly the diagnostic of that callback -/
+example : C18_w12Show ((Instance.runReqsB (α := Rat) ⟨C18_w12Env, false⟩ C18_w13Hist).serveB (α := Rat)
+      (.parseOpts ⟨some C18_w12Chk, some C18_w13Val⟩ C18_w13Doc)).2 =
+    (["metadata-validator/analysis/other/2..4/5..7", "recipe-not-found/analysis/error/12..21",
+      "meta-deprecated/analysis/other/2..7"], true) ∧
+    C18_w12Show ((Instance.runReqsB (α := Rat) ⟨C18_w12Env, false⟩ C18_w13Hist).serveB (α := Rat)
+      (.parseOpts ⟨some C18_w12Chk, none⟩ C18_w13Doc)).2 =
+    (["recipe-not-found/analysis/error/12..21", "meta-deprecated/analysis/other/2..7"], true) ∧
+    C18_w12Show ((Instance.runReqsB (α := Rat) ⟨C18_w12Env, false⟩ C18_w13Hist).serveB (α := Rat)
+      (.parseOpts ⟨none, some C18_w13Val⟩ C18_w13Doc)).2 =
+    (["metadata-validator/analysis/other/2..4/5..7", "meta-deprecated/analysis/other/2..7"], true) := by
+  simp only [Instance.serveB, Instance.runReqsB_env, OptsB.reply, OptsB.valN, Option.map_some, Option.map_none]
+  unfold RV.parseRecipeRV pullEvents
+  simp only [C18_w12Env, C18_w13_fmDoc, C18_w13_lexDoc]
+  decide +kernel
+/-- hypotheses of `C18_instances_independent_options_both` on a process with two parsers, asked through the second -/
+example : (((⟨[(C18_w7Env, C18_w7FeOk), (C18_w12Env, C18_w7FeErr)], false⟩ : Process Rat).runB
+      (C18_w13Hist.map (fun q => (1, q)))).serveB 1
+      (.parseOpts ⟨some C18_w12Chk, some C18_w13Val⟩ C18_w13Doc)).2.map (fun f => C18_w12Show f.result) =
+    some (["metadata-validator/analysis/other/2..4/5..7", "recipe-not-found/analysis/error/12..21",
+      "meta-deprecated/analysis/other/2..7"], true) := by
+  simp only [Process.serveB, Process.runB_parsers, fullReplyB, fullReplyOf, OptsB.reply, OptsB.valN, Option.map_some,
+    List.getElem?_cons_succ, List.getElem?_cons_zero]
+  unfold RV.parseRecipeRV pullEvents
+  simp only [C18_w12Env, C18_w13_fmDoc, C18_w13_lexDoc]
+  decide +kernel
+/-- `C18_options_both_specialises` on a concrete document and callbacks -/
+example : RV.parseRecipeRV (α := Rat) C18_w12Env (some C18_w12Chk) none C18_w13Doc =
+    RC.parseRecipeR C18_w12Env (some C18_w12Chk) C18_w13Doc :=
+  (C18_options_both_specialises C18_w12Env C18_w13Doc).1 _
+-- ===== end w13c18both =====
 
 end Cook
